@@ -166,7 +166,7 @@ def run_tlc(module, cfg, *, workers=4, xmx="4g", timeout=600, env=None, simulate
         m = re.match(r"^Error: Action property line", line)
         if m and not res.violated:
             res.violated = "action_property"
-        if line.startswith("Error: Temporal properties were violated"):
+        if re.match(r"^Error: Temporal propert(y|ies) .*violated", line):
             res.violated = res.violated or "temporal"
         if line.startswith("Error: Assumption"):
             res.violated = "assumption"
@@ -347,15 +347,14 @@ def validate_trace(module, cfg, trace_path, *, timeout=600, xmx="3g", tag=None, 
     v.tlc = res
     v.violated = res.violated
     m = re.search(r'<<"TRACE_MATCHED", (\d+), (\d+)>>', res.stdout)
-    if m:
-        v.matched, v.total = int(m.group(1)), int(m.group(2))
-    elif res.violated:
-        # invariant violation stops TLC before the postcondition: use the error trace length
+    if res.violated:
+        # a predicate is false on a recorded state. State 1 is the initial state and state k+1 the one after
+        # record k (1-based), so the violating record has 0-based index N-2 = `matched`
         ms = re.findall(r"^State (\d+):", res.stdout, flags=re.M)
-        # state 1 is the initial state, state k+1 the one after record k (1-based): the violating record has
-        # 0-based index N-2, which is what `matched` (= index of the first bad record) must be
         v.matched = max(int(ms[-1]) - 2, 0) if ms else 0
         v.total = -1
+    elif m:
+        v.matched, v.total = int(m.group(1)), int(m.group(2))
     else:
         sys.stdout.write("\n".join(res.stdout.splitlines()[-30:]) + "\n")
         raise ToolError("trace validation of %s produced no verdict" % trace_path)
